@@ -49,6 +49,7 @@ func restoreConfig(roots ...string) *EFConfig {
 			{Fn: "(*ls/internal.ResumableReader).close", Callee: "iface:io.ReadCloser.Close", Reason: "closing a stream that is being discarded (logged)"},
 			{Fn: "(*ls.Replica).Restore", Callee: "iface:ltx.FileIterator.Close", Reason: "closing the validation listing after its Err() was checked"},
 			{Fn: "ls.ReadTXIDFile", Callee: "os.ReadFile", Tolerate: []string{"os.IsNotExist"}, Reason: "no sidecar = first run"},
+			{Fn: "(*ls.Replica).Restore", Callee: "iface:io.Closer.Close", DroppedOnly: true, Reason: "closing the fully consumed source streams before entering follow mode: the restored file is already synced, renamed and checked"},
 			{Fn: "(*ls.Replica).Restore", Callee: "os.Stat", Reason: "the follow-mode resume probe: a failed stat falls through to the ordinary path, which stats the output again (rule R1 checks that second stat guards every creating call)"},
 			{Fn: "*", Callee: "ls.ParseSnapshotFilenameV3", Reason: "legacy listings skip names that are not snapshot files"},
 			{Fn: "*", Callee: "ls.ParseWALSegmentFilenameV3", Reason: "legacy listings skip names that are not WAL segment files"},
